@@ -8,7 +8,7 @@ from fractions import Fraction
 from common import standard_main, run_cli_many, run_model, parse_text_spectrum, text_spectrum, frac_to_dec, is_panic
 
 TOL = Fraction(1, 10**9)
-RULE = ("random positive-integer spectra with 1-4 axes (lengths 2-5) x ALL 16 option subsets {marginalize, project, mask, "
+RULE = ("random spectra (integer counts, 40% zeros, fractional values with a total below one, already-normalised input) with 1-4 axes (lengths 2-5) x ALL 16 option subsets {marginalize, project, mask, "
         "normalize} with an admissible random marginalization set (-m or -M) and projection target for the intermediate "
         "shape: (1) the combined `sfs view` call vs piping through single-option calls (-O npy between steps, text at the "
         "end): stdout must be byte-identical; (2) the combined call vs the model's view_run within 0.5e-6 + 1e-9*sum; (3) "
@@ -35,7 +35,16 @@ def check(rep, tier, seed):
         d = rng.randrange(1, 5)
         sh = [rng.randrange(2, 6) for _ in range(d)]
         pz = rng.choice([0.0, 0.0, 0.4])
-        data = ["0" if rng.random() < pz else str(rng.randrange(1, 300)) for _ in range(elements(sh))]
+        # counts, and fractional spectra with totals below / around one (frequency-scale input, already normalised input)
+        kind = rng.choice(["counts", "counts", "small", "unit"])
+        if kind == "counts":
+            data = ["0" if rng.random() < pz else str(rng.randrange(1, 300)) for _ in range(elements(sh))]
+        elif kind == "small":
+            data = ["0" if rng.random() < pz else "0.%04d" % rng.randrange(1, 400) for _ in range(elements(sh))]
+        else:
+            E = elements(sh)
+            parts = [rng.randrange(1, 100) for _ in range(E)]
+            data = ["%.6f" % (x / sum(parts)) for x in parts]
         if all(x == "0" for x in data):
             data[0] = "5"
         for subset in itertools.product([0, 1], repeat=4):
@@ -118,7 +127,8 @@ def check(rep, tier, seed):
         # single-option oracles
         if subset == (0, 0, 1, 0) and rc == 0:
             p = parse_text_spectrum(so)
-            want = ["0.000000"] + ["%s.000000" % x for x in data[1:-1]] + (["0.000000"] if len(data) > 1 else [])
+            f6 = lambda x: "%.6f" % float(x)
+            want = ["0.000000"] + [f6(x) for x in data[1:-1]] + (["0.000000"] if len(data) > 1 else [])
             if p is None or p[1] != want:
                 rep.fail(kind="property-oracle", cls="view:mask", case=case[:300], argv=["sfs"] + job[0], stdin=job[1].decode(),
                          observed=so.decode()[:300], expected=" ".join(want)[:300], detail="--mask-monomorphic must zero exactly the first and last entry")
@@ -131,7 +141,7 @@ def check(rep, tier, seed):
                 rep.fail(kind="property-oracle", cls="view:normalize", case=case[:300], argv=["sfs", "view", "--normalize", "--precision", "15"],
                          stdin=job[1].decode(), observed=jobs13[1].decode()[:300], expected="x / sum(x)", detail="--normalize must rescale to sum one preserving ratios")
         if subset == (0, 0, 0, 0) and rc == 0:
-            want = text_spectrum(sh, ["%s.000000" % x for x in data])
+            want = text_spectrum(sh, ["%.6f" % float(x) for x in data])
             if so != want:
                 rep.fail(kind="property-oracle", cls="view:identity", case=case[:300], argv=["sfs", "view"], stdin=job[1].decode(),
                          observed=so.decode()[:300], expected=want.decode()[:300], detail="view without options must reproduce its input")
